@@ -332,4 +332,62 @@ theorem unary_and_assign_as_documented :
     Gen.unaryOps = [(.Exclamation, .Not), (.Minus, .Neg)] ∧ Gen.assignOps = [(.Equal, .Assign)] ∧
     Gen.precedenceEnd = "parse_slice" := by decide
 
+/-! ### string literals: an escaped character never closes the string (finding F70, repaired) -/
+
+theorem strBody_cons (c : Char) (r : List Char) :
+    strBodyLen (c :: r) = if c == '"' then 0 else if c == '\\' then (match r with | [] => 1 | _ :: r' => strBodyLen r' + 2) else strBodyLen r + 1 := by
+  rw [strBodyLen.eq_def]; rfl
+
+theorem strBody_quote (rest : List Char) : strBodyLen ('"' :: rest) = 0 := by
+  rw [strBody_cons]; simp
+
+theorem strBody_escape (c : Char) (rest : List Char) : strBodyLen ('\\' :: c :: rest) = strBodyLen rest + 2 := by
+  rw [strBody_cons]; simp
+
+theorem strBody_open : strBodyLen ['\\'] = 1 := by
+  rw [strBody_cons]; simp
+
+theorem strBody_plain (c : Char) (rest : List Char) (h1 : c ≠ '"') (h2 : c ≠ '\\') :
+    strBodyLen (c :: rest) = strBodyLen rest + 1 := by
+  rw [strBody_cons]; simp [h1, h2]
+
+/-- **where the scan stops inside the text, it stops at a quote that no backslash escapes**; it never runs past the text -/
+theorem strBody_stops_at_quote : ∀ (n : Nat) (s : List Char), s.length ≤ n →
+    strBodyLen s ≤ s.length ∧ (strBodyLen s < s.length → s[strBodyLen s]? = some '"') := by
+  intro n
+  induction n with
+  | zero =>
+    intro s h
+    cases s with
+    | nil => simp [strBodyLen]
+    | cons c r => simp at h
+  | succ n ih =>
+    intro s h
+    cases s with
+    | nil => simp [strBodyLen]
+    | cons c r =>
+      by_cases hq : c = '"'
+      · subst hq; rw [strBody_quote]; simp
+      · by_cases hb : c = '\\'
+        · subst hb
+          cases r with
+          | nil => rw [strBody_open]; simp
+          | cons d r' =>
+            rw [strBody_escape]
+            have := ih r' (by simp at h ⊢; omega)
+            refine ⟨by simp only [List.length_cons]; omega, fun hl => ?_⟩
+            have h2 := this.2 (by simp only [List.length_cons] at hl; omega)
+            simpa using h2
+        · rw [strBody_plain c r hq hb]
+          have := ih r (by simp at h ⊢; omega)
+          refine ⟨by simp only [List.length_cons]; omega, fun hl => ?_⟩
+          have h2 := this.2 (by simp only [List.length_cons] at hl; omega)
+          simpa using h2
+
+/-- `"a\"b"` is one string token of six characters, `"\""` one of four, and a lone trailing backslash leaves the string open -/
+example : checkString ['"', 'a', '\\', '"', 'b', '"'] = some (.String, 6) := by decide
+example : checkString ['"', '\\', '"', '"'] = some (.String, 4) := by decide
+example : checkString ['"', 'a', '\\', '"'] = none := by decide
+example : stringContents ['"', 'a', '\\', '"', 'b', '"'] = some ['a', '"', 'b'] := by decide
+
 end Casm.C05
